@@ -1,7 +1,12 @@
-(* SHA-1 (FIPS 180-4) over byte lists, executable.  Used only to RUN the OpenPGP model
-   (fingerprints of generated keys); every theorem about fingerprints is stated for an
-   arbitrary hash function H, so nothing is assumed about this definition.  A test vector
-   is checked in Proofs/PgpKey.v. *)
+(* SHA-1 (FIPS 180-4) over byte lists, executable and total: padding (5.1.1), the 80-word message
+   schedule and the 80 rounds (6.1.2), big-endian output of the five 32-bit words (20 octets).
+   Bytes are N below 256, words N reduced mod 2^32 (m32 = land with 2^32 - 1).
+   It is the hash function of the OpenPGP model in C12: fingerprints, key IDs and SHA-1 signature
+   digests are computed with it (Run/C12.v), the theorems C12_fingerprint_sha1, C12_keyid_sha1 and
+   C12_fingerprint_length speak about it, and the spec checker recomputes RFC 4880 12.2
+   fingerprints with it.  The older fingerprint theorems hold for an arbitrary hash function H.
+   No proofs here; lemmas (digest length and octet range for every input, padding, fuel, the
+   published test vectors) are in Proofs/Sha1.v; the comparison with crypto/sha1 is op sha1 of C12. *)
 From WI Require Import Lib.Base.
 Open Scope N_scope.
 
